@@ -15,7 +15,8 @@
 From Coq Require Import Arith Bool List String.
 Import ListNotations.
 From Ice Require Import Model.PrioSpec Model.TaskLoop Gen.LoopDiscipline
-     Proofs.TaskLoopInv Proofs.TaskLoopProofs Proofs.LoopDisciplineProofs.
+     Proofs.TaskLoopInv Proofs.TaskLoopProofs Proofs.LoopDisciplineProofs
+     Proofs.TaskLoopMonA Proofs.TaskLoopMonB Proofs.TaskLoopMonC.
 
 (* at most one task body is executing in any reachable state *)
 Theorem C10_serial : forall s, reach s ->
@@ -78,6 +79,16 @@ Theorem C10_explains_sound : forall sids cids evs, explains sids cids evs = true
   exists ls s, run ls init = Some s /\ observe ls = evs /\ reach s.
 Proof. exact explains_sound. Qed.
 Print Assumptions C10_explains_sound.
+
+(* the extracted monitor (C10_checks: serial, ok-ran-once-before-return, error-never-ran,
+   ran-implies-ok, at-most-once, none-after-close-returned, onclose-once, onclose-after-last-task,
+   close-returns-after-onclose, prestop-at-most-once) is true on the observable trace of EVERY run
+   of the model that is complete (every Run that was called has returned).  With
+   C10_explains_sound: a complete log on which the monitor fails cannot be explained by the model. *)
+Theorem C10_monitor_holds_on_every_run : forall ls s,
+  run ls init = Some s -> complete s -> C10_monitor (observe ls) = true.
+Proof. exact monitor_holds. Qed.
+Print Assumptions C10_monitor_holds_on_every_run.
 
 (* PARTIAL.  Every exported method of *Agent / *Conn touches the loop-owned Agent fields
    (loop_owned_fields) only inside a closure handed to a.loop.Run, transitively through the
